@@ -847,7 +847,7 @@ def _dot_csc_ndarray_type_sparse(dt1, dt2):
         nnz = _csc_ndarray_count_nnz(a_shape, b_shape, indptr, a_indices, a_indptr, b)
         indices = np.empty(nnz, dtype=np.intp)
         data = np.empty(nnz, dtype=dtr)
-        sums = np.zeros(a_shape[0])
+        sums = np.zeros(a_shape[0], dtype=dtr)
         mask = np.full(a_shape[0], -1)
         nnz = 0
         indptr[0] = 0
